@@ -50,6 +50,8 @@ def cases(tier, seed):
                {"legend": True}, {"legend": False},
                {"colors": True, "colorbar": True}, {"xlog": True},
                {"ylog": True}, {"colors": True, "zlims": (0.0, 20.0)},
+               {"colors": True, "zlims": (0.0, None)},
+               {"colors": True, "zlims": (None, 20.0)},
                {"colors": True, "vmin": 1.0, "vmax": 4.0},
                {"xlog": True, "ylog": True}, {"colors": True, "legend": True},
                {"colors": True, "colorbar": True, "colormap": "viridis"}]
@@ -117,7 +119,10 @@ def cases(tier, seed):
     for nz, bins, holes, variant in itertools.product(
             (1, 2, 3), (30, 4, "edges"), (0, 1, "series"),
             ("z", "multi", "grid", "single")):
-        for o in ({}, {"colors": True}, {"stacked": True}):
+        for o in ({}, {"colors": True}, {"stacked": True},
+                  # (a window on the x axis narrower than the data: what is
+                  # binned does not depend on what is shown)
+                  {"xlims": (2.0, 6.0)}):
             j += 1
             if tier == "quick" and core.pick(
                     ["hist", nz, bins, holes, variant, o], 2):
